@@ -285,7 +285,37 @@ func ruleR09f(c *Ctx) {
 	st := ledgerPosting.Underlying().(*types.Struct)
 	mapped := map[string]string{}
 	var srcIdx, dstIdx ssa.Value
-	for _, b := range run.Blocks {
+	// the conversion loop may live in a helper of the package applied to the machine's postings
+	// (`Postings: toLedgerPostings(m.Postings)`)
+	var convBlocks []*ssa.BasicBlock
+	convBlocks = append(convBlocks, run.Blocks...)
+	helperOK := true
+	allCalls(run, func(ci ssa.CallInstruction) {
+		call, ok := ci.(*ssa.Call)
+		if !ok {
+			return
+		}
+		h := staticCallee(call)
+		if h == nil || fnPkgPath(h) != pkgVM || len(h.Blocks) == 0 || h.Signature.Results().Len() != 1 {
+			return
+		}
+		rt, ok := h.Signature.Results().At(0).Type().Underlying().(*types.Slice)
+		if !ok || !isNamed(rt.Elem(), pkgLedger, "Posting") {
+			return
+		}
+		convBlocks = append(convBlocks, h.Blocks...)
+		// applied to the machine's Postings
+		okArg := false
+		for _, a := range call.Call.Args {
+			if f, _ := anyFieldRead(a); f != nil && f.Name() == "Postings" {
+				okArg = true
+			}
+		}
+		if !okArg {
+			helperOK = false
+		}
+	})
+	for _, b := range convBlocks {
 		for _, ins := range b.Instrs {
 			s, ok := ins.(*ssa.Store)
 			if !ok {
@@ -320,7 +350,7 @@ func ruleR09f(c *Ctx) {
 		n := st.Field(i).Name()
 		c.check(mapped[n] == n, rule, "vm.Run:posting."+n, run.Pos(), "result posting field "+n+" is the VM posting's "+n, fmt.Sprintf("vm.Run fills ledger.Posting.%s from the VM posting's %q: postings are re-attributed", n, mapped[n]))
 	}
-	c.check(srcIdx != nil && srcIdx == dstIdx, rule, "vm.Run:posting-positions", run.Pos(), "posting j of the result is posting j of the machine", "vm.Run does not copy posting j of the machine to position j of the result: postings are reordered or dropped")
+	c.check(srcIdx != nil && srcIdx == dstIdx && helperOK, rule, "vm.Run:posting-positions", run.Pos(), "posting j of the result is posting j of the machine", "vm.Run does not copy posting j of the machine to position j of the result: postings are reordered or dropped")
 	// the request metadata is merged into the result
 	scriptParam := run.Params[1]
 	merged := false
